@@ -1803,9 +1803,38 @@ func (s *State) havocAllHeap(reason string) {
 			s.C.assume("A-PRIVATE: backing arrays of local slices that never leave " + s.C.Key + " are not written by called code")
 		}
 	}
+	// A-FINAL: a field that no code writes once its object exists keeps its value, for every object that exists now
+	type keptComp struct {
+		n, sort string
+		old     Term
+	}
+	var finals []keptComp
+	wmNow := s.WM
+	{
+		var fn []string
+		for n := range s.Heap {
+			if s.C.finalComps[n] {
+				fn = append(fn, n)
+			}
+		}
+		sort.Strings(fn)
+		for _, n := range fn {
+			if srt, ok := s.C.compSorts[n]; ok {
+				finals = append(finals, keptComp{n, srt, s.Heap[n]})
+			}
+		}
+		if len(finals) > 0 {
+			s.C.assume("A-FINAL: struct fields that no code of the repository writes after their object has been set up keep their values across calls without a contract (decided on the SSA of the loaded packages, plus a scan of the repository's sources for exported fields)")
+		}
+	}
 	defer func() {
 		for _, k := range keep {
 			s.store(k.l, k.t)
+		}
+		for _, fc := range finals {
+			cur := s.comp(fc.n, fc.sort)
+			q := s.C.fresh("r")
+			s.assert(fmt.Sprintf("(forall ((%s Int)) (! (=> (<= %s %s) (= (select %s %s) (select %s %s))) :pattern ((select %s %s))))", q, q, wmNow, cur, q, fc.old, q, cur, q))
 		}
 		for _, r := range rows {
 			cur := s.comp(r.cn, r.cs)
